@@ -361,6 +361,9 @@ def _lock_state():
 _GENERIC_FRAMES = {'__getitem__', '__setitem__', '__delitem__', '__len__', '__iter__', '__contains__', '__call__wrapper'}
 
 
+_UNTYPED_GENERIC = {'_operator', '__eq__', '__ne__', '__lt__', '__le__', '__gt__', '__ge__'}
+
+
 def call_site_bucket(exc):
     """type + innermost elementpath frame, skipping container dunders of tdop.Token (self[1][1] raises inside
     Token.__getitem__: the call site is the frame that indexed)"""
@@ -372,6 +375,8 @@ def call_site_bucket(exc):
         if '/elementpath/' in fn:
             if fr.name in _GENERIC_FRAMES and fn.endswith('/tdop.py'):
                 continue
+            if fn.endswith('/datatypes/untyped.py') and fr.name in _UNTYPED_GENERIC:
+                continue            # the comparison helper of UntypedAtomic: the call site is the operator / function using it
             site = fn.split('/elementpath/', 1)[1] + ':' + fr.name
             break
     return f'C03/escape/{type(exc).__name__}@{site}'
@@ -1321,6 +1326,33 @@ def ctx_grid(ver):
             yield s_, ctxcfg
 
 
+# ---- untyped grid: untyped values of every content x literals of every atomic type x comparison / arithmetic operators ------
+UNTYPED_CONTENTS = ['x', '', ' ', 'NaN', 'INF', '-INF', '1e5', '--1', '1.2.3', '1', ' 1.5 ', 'true', '2001-01-01', 'P1D', 'p:a', '0x', '१']
+TYPED_LITERALS = ["1.5", "0.25", "10.0", "1", "0", "-3", "1e0", "xs:float('1.5')", "xs:double('NaN')", "true()", "'a'", "''",
+                  "xs:date('2001-01-01')", "xs:dateTime('2001-01-01T00:00:00')", "xs:time('12:00:00')", "xs:dayTimeDuration('PT1S')",
+                  "xs:yearMonthDuration('P1Y')", "xs:duration('P1D')", "xs:QName('p:a')", "xs:anyURI('u')", "xs:hexBinary('00')",
+                  "xs:base64Binary('AA==')", "xs:gYear('2001')", "xs:untypedAtomic('1')", "()", "(1.5, 'a')"]
+UNTYPED_OPS = ['=', '!=', '<', '<=', '>', '>=', 'eq', 'ne', 'lt', 'le', 'gt', 'ge', '+', '-', '*', 'div', 'idiv', 'mod']
+UNTYPED_NODES = ["/r/a", "/r/b", "/r/*", "/r/@a", "/r/a/@x", "/r", "/r/text()", "/r/comment()", "//c"]
+
+
+def untyped_grid(ver):
+    """(string, vars): untyped operand (constructor = static, via $w = dynamic, node of the schema-less document) op literal,
+    both operand orders"""
+    for op in UNTYPED_OPS:
+        for lit in TYPED_LITERALS:
+            for i, c in enumerate(UNTYPED_CONTENTS):
+                u = "xs:untypedAtomic('%s')" % c
+                yield f'{u} {op} {lit}', None
+                yield f'{lit} {op} {u}', None
+                if i % 3 == 0:
+                    yield f'xs:untypedAtomic($w) {op} {lit}', {'w': c}
+                    yield f'{lit} {op} xs:untypedAtomic($w)', {'w': c}
+            for nd in UNTYPED_NODES:
+                yield f'{nd} {op} {lit}', None
+                yield f'{lit} {op} {nd}', None
+
+
 def _item(strings, source):
     return st.fixed_dictionaries({'s': strings, 'ctx': st.sampled_from(CTX_KINDS + ('root', 'root', 'doc')),
                                   'api': st.sampled_from(APIS + ('evaluate', 'select'))})
@@ -1433,6 +1465,9 @@ def jobs(tier, seed):
     for v in ('2.0', '3.0', '3.1'):
         out.append({'check': 'schemagrid', 'ver': v, 'part': 0, 'parts': 1})
         out.append({'check': 'ctxgrid', 'ver': v, 'part': 0, 'parts': 1})
+    for v in ('2.0', '3.1'):
+        for i in range(2):
+            out.append({'check': 'untypedgrid', 'ver': v, 'part': i, 'parts': 2})
     for v in ('3.0', '3.1'):
         out.append({'check': 'itemgrid', 'ver': v, 'part': 0, 'parts': 1})
     for v in VERS:
@@ -1464,7 +1499,7 @@ def run_job(job, rec: Recorder):
     if chk == 'atheris':
         from vp.gen import c03_atheris
         return c03_atheris.run(job, rec)
-    if chk in ('callgrid', 'opgrid', 'nsgrid', 'regexgrid', 'itemgrid', 'cfggrid', 'ctxgrid'):
+    if chk in ('callgrid', 'opgrid', 'nsgrid', 'regexgrid', 'itemgrid', 'cfggrid', 'ctxgrid', 'untypedgrid'):
         for case in _grid_cases(job):
             rec.discs_of(chk, case, judge_batch(case, rec, chk))
         return
@@ -1508,6 +1543,16 @@ def _grid_cases(job):
         for cfg, steps in schema_grid(ver):
             yield {'ver': ver, 'cfg': cfg, 'steps': steps}
         return
+    if chk == 'untypedgrid':
+        for idx, (s, vars_) in enumerate(untyped_grid(ver)):
+            if idx % job['parts'] == job['part']:
+                it = {'s': s, 'ctx': 'root', 'api': 'evaluate'}
+                if vars_:
+                    it['vars'] = vars_
+                if idx % 7 == 3 and ver == '2.0':
+                    it['cfg'] = 'compat'
+                yield {'ver': ver, 'items': [it]}
+        return
     if chk == 'ctxgrid':
         for idx, (s, ctxcfg) in enumerate(ctx_grid(ver)):
             yield {'ver': ver, 'items': [{'s': s, 'ctx': 'doc' if idx % 3 == 2 else 'root', 'api': 'select' if idx % 2 else 'evaluate',
@@ -1543,7 +1588,7 @@ def shrink_job(job, bucket, budget):
                 if d.bucket == bucket:
                     return case, d
         return None
-    if chk in ('callgrid', 'opgrid', 'nsgrid', 'regexgrid', 'itemgrid', 'cfggrid', 'ctxgrid'):
+    if chk in ('callgrid', 'opgrid', 'nsgrid', 'regexgrid', 'itemgrid', 'cfggrid', 'ctxgrid', 'untypedgrid'):
         for case in _grid_cases(job):
             for d in judge_batch(case, None, chk):
                 if d.bucket == bucket:
